@@ -308,6 +308,9 @@ func genC03(tier, out string, sum *Summary) {
 			quiet(fmt.Sprintf("%s[%d]", tgt, a), []any{"x", "y"}, "small-slices")
 		}
 	}
+	for _, af := range argFaultFamily() {
+		quiet(af.expr, af.doc, "arg-fault")
+	}
 	// every combination of two constructs on hostile values, and the spellings the canonical printer never produces
 	for _, sc := range smallScope(ssCfg{funcs: true, lets: true, errs: true, bools: true}, 1, 3000) {
 		text := unparse(sc.e)
@@ -460,6 +463,41 @@ func genC04(tier, out string, sum *Summary) {
 	for _, inner := range []string{"a | b", "a || b", "a && b", "!a", "a == b", "a + b", "- a", "let $x = a in $x", "a[?b | c]", "[a, b]", "{k: a}", "abs(a)", "a[*].b", "*", "@", "$", "`1`", "'x'", "a.b[0]", "(a)", "a[0:1]", "[?a]", "[]", "[*]", "a | b | c"} {
 		for _, ctx := range []string{"x[?%s]", "[?%s]", "x[*][?%s].y", "(%s)", "[%s]", "[a, %s]", "{k: %s}", "abs(%s)", "sort_by(x, &%s)", "map(&%s, x)", "let $v = %s in $v", "let $v = a in %s", "x | %s", "%s | x", "not_null(a, %s)", "x[?a == %s]", "!(%s)", "x[?(%s)]", "x.[%s]", "x.{k: %s}"} {
 			emit(fmt.Sprintf(ctx, inner), "valid")
+		}
+	}
+	// a lexical fault after every prefix of a catalogue of texts that passes through every construct: the lexer is
+	// pulled on demand, so each "advance" of the parser has an error return of its own that only such a text reaches
+	{
+		bad := []string{"#", "'", "\"", "`", "\x80", "$ ", "'\\", "\"\\u12", "`\\", "~", "\x00", "\u00a0"}
+		texts := []string{}
+		for _, inner := range []string{"a | b", "a || b && c", "!a == b", "a + b * c", "- a // b % c", "let $x = a, $y = b in $x", "a[?b | c]", "[a, b]", "{k: a, \"l\": b}", "a[*].b", "* . c", "a.*", "@", "$", "`1`", "'x'", "a.b[0]", "(a)", "a[0:1:2]", "a[::-1]", "a[:2]", "[?a]", "[]", "[*]", "a[].b", "a.[b, c]", "a.{k: b}", "$v", "a × b ÷ c − d", "a < b", "a <= b", "a >= b", "a > b", "a != b", "a / b", "a - b", "a[1]", "[0]", "[1:]", "a.\"b\"", "a[?b].c", "[].a"} {
+			texts = append(texts, inner)
+		}
+		for _, f := range sigs {
+			parts := []string{}
+			for j, t := range f.args {
+				if t == "&" {
+					parts = append(parts, "&x")
+				} else {
+					parts = append(parts, []string{"x", "y", "z", "w"}[j%4])
+				}
+			}
+			texts = append(texts, f.name+"("+strings.Join(parts, ", ")+")")
+		}
+		k := 0
+		for _, t := range texts {
+			for i := 0; i <= len(t); i++ {
+				if i < len(t) && t[i]&0xc0 == 0x80 {
+					continue
+				}
+				k++
+				b := bad[k%len(bad)]
+				emit(t[:i]+b, "unknown")
+				if tier == "thorough" || k%3 == 0 {
+					emit(t[:i]+b+t[i:], "unknown")
+					emit(t[:i]+" "+bad[(k+5)%len(bad)]+" "+t[i:], "unknown")
+				}
+			}
 		}
 	}
 	// every built-in with every argument count up to its maximum: the call must be closed by ")" and by nothing else
